@@ -905,3 +905,71 @@ Proof.
     + intros i Hout. rewrite IH2 by (intros c Hc; apply Hout; now right).
       apply singlify_core_outside. apply Hout. now left.
 Qed.
+
+(* ================================================================== *)
+(* hwloc_get_type_depth / hwloc_get_depth_type                         *)
+
+(* facts wf_check establishes about the per-depth tables ("normal-level-depth-sequence",
+   "depth-vs-levels", "empty-normal-level", "level-type", "type-depth-single", "type-depth-special"):
+   every normal level sits at a depth below t_depth, is found by its depth, is non-empty and its
+   first object has the level's type; a type whose depth is a normal depth names a level of that
+   type; a special type has its fixed special depth *)
+Record tables_ok (d : dump) : Prop := {
+  tk_level : forall l, In l (t_levels d) -> (0 <= l_depth l)%Z ->
+               (l_depth l < t_depth d)%Z /\ find_level d (l_depth l) = Some l /\
+               exists o rest, level_objs d (l_depth l) = o :: rest /\ Z.of_N (o_type o) = l_type l;
+  tk_covered : forall dep, (0 <= dep < t_depth d)%Z -> exists l, In l (t_levels d) /\ l_depth l = dep;
+  tk_type : forall ty, ty < HWLOC_OBJ_TYPE_MAX -> (0 <= get_type_depth d (Z.of_N ty))%Z ->
+               exists l, In l (t_levels d) /\ l_depth l = get_type_depth d (Z.of_N ty) /\ l_type l = Z.of_N ty;
+  tk_special : forall ty sd, ty < HWLOC_OBJ_TYPE_MAX -> special_depth_of ty = Some sd -> get_type_depth d (Z.of_N ty) = sd;
+  tk_single : forall l, In l (t_levels d) -> (0 <= l_depth l)%Z -> (0 <= l_type l < Z.of_N HWLOC_OBJ_TYPE_MAX)%Z ->
+               get_type_depth d (l_type l) = l_depth l \/ get_type_depth d (l_type l) = HWLOC_TYPE_DEPTH_MULTIPLE;
+  tk_depth : (0 <= t_depth d)%Z
+}.
+
+Lemma get_depth_type_level d l : tables_ok d -> In l (t_levels d) -> (0 <= l_depth l)%Z ->
+  get_depth_type d (l_depth l) = l_type l.
+Proof.
+  intros T Hl Hd. destruct (tk_level d T l Hl Hd) as (H1 & _ & o & rest & H3 & H4).
+  unfold get_depth_type. assert (E : ((0 <=? l_depth l) && (l_depth l <? t_depth d))%Z = true).
+  { apply andb_true_iff. split; [now apply Z.leb_le|now apply Z.ltb_lt]. }
+  rewrite E, H3. exact H4.
+Qed.
+
+Lemma special_depth_negative ty sd : special_depth_of ty = Some sd -> (sd < 0)%Z.
+Proof.
+  unfold special_depth_of. repeat (destruct (_ =? _); [intros E; inversion E; subst; reflexivity|]). discriminate.
+Qed.
+
+Lemma get_depth_type_special d ty sd : (0 <= t_depth d)%Z -> special_depth_of ty = Some sd -> get_depth_type d sd = Z.of_N ty.
+Proof.
+  intros Hd H. pose proof (special_depth_negative ty sd H) as Hneg. unfold get_depth_type.
+  assert (E : (0 <=? sd)%Z = false) by (apply Z.leb_gt; exact Hneg). rewrite E. cbn [andb].
+  revert H. unfold special_depth_of.
+  destruct (N.eqb_spec ty HWLOC_OBJ_NUMANODE) as [->|_]; [intros X; inversion X; subst; reflexivity|].
+  destruct (N.eqb_spec ty HWLOC_OBJ_MEMCACHE) as [->|_]; [intros X; inversion X; subst; reflexivity|].
+  destruct (N.eqb_spec ty HWLOC_OBJ_BRIDGE) as [->|_]; [intros X; inversion X; subst; reflexivity|].
+  destruct (N.eqb_spec ty HWLOC_OBJ_PCI_DEVICE) as [->|_]; [intros X; inversion X; subst; reflexivity|].
+  destruct (N.eqb_spec ty HWLOC_OBJ_OS_DEVICE) as [->|_]; [intros X; inversion X; subst; reflexivity|].
+  destruct (N.eqb_spec ty HWLOC_OBJ_MISC) as [->|_]; [intros X; inversion X; subst; reflexivity|].
+  discriminate.
+Qed.
+
+(* the two lookups are mutually inverse wherever get_type_depth gives a depth, in both directions *)
+Lemma type_depth_inverse_l d : tables_ok d ->
+  (forall ty, ty < HWLOC_OBJ_TYPE_MAX ->
+     let dep := get_type_depth d (Z.of_N ty) in
+     (0 <= dep)%Z \/ special_depth_of ty = Some dep -> get_depth_type d dep = Z.of_N ty) /\
+  (forall dep, (0 <= dep < t_depth d)%Z ->
+     let ty := get_depth_type d dep in
+     (0 <= ty < Z.of_N HWLOC_OBJ_TYPE_MAX)%Z -> get_type_depth d ty = dep \/ get_type_depth d ty = HWLOC_TYPE_DEPTH_MULTIPLE).
+Proof.
+  intros T. split.
+  - intros ty Hty dep [Hd|Hs].
+    + destruct (tk_type d T ty Hty Hd) as (l & Hl & E1 & E2). subst dep. rewrite <- E1, <- E2.
+      apply get_depth_type_level; auto. rewrite E1. exact Hd.
+    + apply get_depth_type_special; [exact (tk_depth d T)|exact Hs].
+  - intros dep Hd ty Hty. destruct (tk_covered d T dep Hd) as (l & Hl & E). subst dep.
+    assert (Ety : ty = l_type l) by (apply get_depth_type_level; auto; lia).
+    rewrite Ety in *. apply (tk_single d T l Hl); [lia|exact Hty].
+Qed.
